@@ -828,6 +828,14 @@ def get_mttkrp_factors(
 
     assert len(U) == ndims, "List of factor matrices is the wrong length"
 
+    # The factor of mode n is not used; all others must agree on the column count
+    columns = {
+        u.shape[1]
+        for i, u in enumerate(U)
+        if i != n and isinstance(u, np.ndarray) and u.ndim == 2
+    }
+    assert len(columns) <= 1, "All matrices must have the same number of columns."
+
     return U
 
 
